@@ -57,6 +57,9 @@ def gen_plan(seed, tier):
     frames.append((fs, r.randint(1, nports)))
   r6 = Rng(mix(seed, "pad"))
   for fs, _ in frames:
+    if fs["kind"] == "udp" and not fs.get("frag") and fs["paylen"] >= 2 \
+        and not fs.get("l4cut") and r6.chance(0.15):
+      fs["zsum"] = True       # checksum computes to 0 -> goes out as 0xffff
     # Ethernet padding after the IP datagram (a short frame as a NIC
     # delivers it): what the switch forwards is the datagram's frame, the
     # trailer is not payload
